@@ -10,7 +10,7 @@ Lemma np_at_field {A} k (r : res A) : np r -> np (at_field k r).
 Proof. destruct r; cbn; auto. Qed.
 
 Lemma np_decode_scalar k j cur : np (decode_scalar k j cur).
-Proof. destruct j, k; cbn; try exact I; try (destruct integral; exact I). Qed.
+Proof. destruct j, k; cbn; try exact I; try (destruct integral; exact I); repeat (match goal with |- np (match ?x with _ => _ end) => destruct x end); exact I. Qed.
 
 Lemma np_map_res {A B} (f : A -> res B) l : (forall x, np (f x)) -> np (map_res f l).
 Proof.
@@ -217,8 +217,8 @@ Theorem null_into_slice tm w f e cur : decode tm w (S f) (GSlice e) JNull cur = 
 Proof. reflexivity. Qed.
 Theorem null_into_interface tm w f i cur : decode tm w (S (S f)) (GIface i) JNull cur = Ok cur.
 Proof. reflexivity. Qed.
-Theorem null_into_scalar k cur : decode_scalar k JNull cur = Ok cur.
-Proof. reflexivity. Qed.
+Theorem null_into_scalar k cur : decode_scalar k JNull cur = Ok (match k with KAny => VZero | _ => cur end).
+Proof. destruct k; reflexivity. Qed.
 Theorem null_into_struct tm w f n d cur :
   assoc n tm = Some d -> (exists g fl s i, d = DStruct g fl s i) -> decode tm w (S (S f)) (GStruct n) JNull cur = Ok cur.
 Proof.
@@ -337,14 +337,14 @@ Definition w_tm : typemap :=
 
 Definition w_resp_null : jval := JObj [(b "items", JNull)].
 Definition w_resp_two : jval :=
-  JObj [(b "items", JArr [JObj [(b "__typename", JStr (b "B"))]; JObj [(b "id", JStr (b "7")); (b "__typename", JStr (b "A"))]])].
+  JObj [(b "items", JArr [JObj [(b "__typename", JStr (b "B"))]; JObj [(b "__typename", JStr (b "A")); (b "id", JStr (b "7"))]])].
 Definition w_resp_bad : jval := JObj [(b "items", JArr [JObj [(b "__typename", JStr (b "Zebra"))]])].
 
 (* every concrete value decodes into the struct generated for its __typename ... *)
 Example w_two_ok :
   decode w_tm true 10 (GStruct (b "QResponse")) w_resp_two (VStruct (b "QResponse") [])
   = Ok (VStruct (b "QResponse") [(b "Items", VSlice [VIface (b "QItemsB") (VStruct (b "QItemsB") [(b "Typename", VScalar (JStr (b "B")))]);
-                                                     VIface (b "QItemsA") (VStruct (b "QItemsA") [(b "Id", VScalar (JStr (b "7"))); (b "Typename", VScalar (JStr (b "A")))])])]).
+                                                     VIface (b "QItemsA") (VStruct (b "QItemsA") [(b "Typename", VScalar (JStr (b "A"))); (b "Id", VScalar (JStr (b "7")))])])]).
 Proof. vm_compute. reflexivity. Qed.
 
 (* ... an unknown one is an error ... *)
